@@ -165,6 +165,9 @@ struct SourceInput {
     disk_text: Option<String>,
     #[returns(clone)]
     overlay: Option<String>,
+    /// Why `disk_text` is missing although the path exists: the read failed.
+    #[returns(clone)]
+    disk_error: Option<Arc<std::io::Error>>,
 }
 
 #[salsa::db]
@@ -217,14 +220,19 @@ impl SourceQueryDb for CompilerSession {
                 let disk_text = match std::fs::read_to_string(&canonical) {
                     | Ok(text) => Some(text),
                     | Err(source) if source.kind() == std::io::ErrorKind::NotFound => None,
+                    // An unreadable file is an input too: queries that ask for it
+                    // depend on it, so a repaired file is reflected after a refresh.
                     | Err(source) => {
-                        return Err(SourceLoadError::Read {
-                            path: canonical,
-                            source: source.into(),
-                        });
+                        return Ok(*entry.insert(SourceInput::new(
+                            self,
+                            canonical,
+                            None,
+                            None,
+                            Some(Arc::new(source)),
+                        )));
                     }
                 };
-                *entry.insert(SourceInput::new(self, canonical, disk_text, None))
+                *entry.insert(SourceInput::new(self, canonical, disk_text, None, None))
             }
         })
     }
@@ -243,7 +251,7 @@ impl CompilerSession {
         let canonical = Self::path_identity(path.as_ref())?;
         let input = self.files.get(&canonical).map(|entry| *entry).unwrap_or_else(|| {
             let disk_text = std::fs::read_to_string(&canonical).ok();
-            let input = SourceInput::new(self, canonical.clone(), disk_text, None);
+            let input = SourceInput::new(self, canonical.clone(), disk_text, None, None);
             self.files.insert(canonical, input);
             input
         });
@@ -267,6 +275,9 @@ impl CompilerSession {
         if input.disk_text(self) != disk_text {
             input.set_disk_text(self).to(disk_text);
         }
+        if input.disk_error(self).is_some() {
+            input.set_disk_error(self).to(None);
+        }
         Ok(())
     }
 
@@ -277,6 +288,9 @@ impl CompilerSession {
             let disk_text = std::fs::read_to_string(&canonical).ok();
             if input.disk_text(self) != disk_text {
                 input.set_disk_text(self).to(disk_text);
+            }
+            if input.disk_error(self).is_some() {
+                input.set_disk_error(self).to(None);
             }
             if input.overlay(self).is_some() {
                 input.set_overlay(self).to(None);
@@ -487,6 +501,9 @@ impl SourceProvider for QuerySourceProvider<'_> {
     ) -> Result<Option<Arc<SourceTemplate>>, SourceLoadError> {
         let input = self.db.source_input(path.to_path_buf())?;
         if input.overlay(self.db).or_else(|| input.disk_text(self.db)).is_none() {
+            if let Some(source) = input.disk_error(self.db) {
+                return Err(SourceLoadError::Read { path: input.path(self.db), source });
+            }
             return Ok(None);
         }
         parse_source(self.db, input).map(Some).map_err(|error| (*error).clone())
@@ -508,8 +525,9 @@ fn parse_source(
     let source = source_text(db, input).ok_or_else(|| {
         Arc::new(SourceLoadError::Read {
             path: path.clone(),
-            source: std::io::Error::new(std::io::ErrorKind::NotFound, "source file not found")
-                .into(),
+            source: input.disk_error(db).unwrap_or_else(|| {
+                std::io::Error::new(std::io::ErrorKind::NotFound, "source file not found").into()
+            }),
         })
     })?;
     SourceTemplate::parse(path, source)
